@@ -29,6 +29,9 @@ structure Ev where
   route : List Bytes
 deriving Repr, DecidableEq, Inhabited
 
+/-- ASCII literal as bytes (reduces in proofs, unlike `FileD.str`) -/
+def lit (s : String) : Bytes := s.toList.map (fun c => UInt8.ofNat c.toNat)
+
 def Ev.isChildParent (e : Ev) : Bool := e.kind == 2
 
 /-- `Batch.ForEach`: `for _, event := range b.events { if event.IsChildParentKind() { continue }; cb(event) }` -/
@@ -125,21 +128,28 @@ def sendSplit : Nat → Nat → Nat → List Nat → Bytes → List Nat → GoM 
     if l = r then .ok ⟨200, false, sc, []⟩ else
     match fuel with
     | 0 => .error .other
-    | fuel + 1 => do
-      let body ← sliceBE data begin l r
-      let (st, sc1) := nextStatus 200 sc
-      let rq : Req := ⟨st, body, r - l⟩
-      if isOkStatus st then .ok ⟨200, false, sc1, [rq]⟩ else
-      if st = 413 then
-        -- can't save even one log
-        if r - l = 1 then .ok ⟨st, true, sc1, [rq]⟩ else
-        let middle := (l + r) / 2
-        let lres ← sendSplit fuel l middle begin data sc1
-        if lres.err && lres.code ≠ 413 then .ok ⟨lres.code, true, lres.sc, rq :: lres.reqs⟩ else
-        let rres ← sendSplit fuel middle r begin data lres.sc
-        if rres.err then .ok ⟨rres.code, true, rres.sc, rq :: (lres.reqs ++ rres.reqs)⟩
-        else .ok ⟨lres.code, lres.err, rres.sc, rq :: (lres.reqs ++ rres.reqs)⟩
-      else .ok ⟨st, true, sc1, [rq]⟩
+    | fuel + 1 =>
+      match sliceBE data begin l r with
+      | .error p => .error p
+      | .ok body =>
+        let st := (nextStatus 200 sc).1
+        let sc1 := (nextStatus 200 sc).2
+        let rq : Req := ⟨st, body, r - l⟩
+        if isOkStatus st then .ok ⟨200, false, sc1, [rq]⟩ else
+        if st = 413 then
+          -- can't save even one log
+          if r - l = 1 then .ok ⟨st, true, sc1, [rq]⟩ else
+          match sendSplit fuel l ((l + r) / 2) begin data sc1 with
+          | .error p => .error p
+          | .ok lres =>
+            if lres.err && lres.code ≠ 413 then .ok ⟨lres.code, true, lres.sc, rq :: lres.reqs⟩ else
+            -- an event that is too large on its own is lost, the rest of the batch still has to be sent
+            match sendSplit fuel ((l + r) / 2) r begin data lres.sc with
+            | .error p => .error p
+            | .ok rres =>
+              if rres.err then .ok ⟨rres.code, true, rres.sc, rq :: (lres.reqs ++ rres.reqs)⟩
+              else .ok ⟨lres.code, lres.err, rres.sc, rq :: (lres.reqs ++ rres.reqs)⟩
+        else .ok ⟨st, true, sc1, [rq]⟩
 
 /-- the split recursion BEFORE the fix (kept for the counterexample theorem): a single event
     answered 413 aborts the recursion, the remaining halves are never sent -/
@@ -148,24 +158,29 @@ def sendSplitOld : Nat → Nat → Nat → List Nat → Bytes → List Nat → G
     if l = r then .ok ⟨200, false, sc, []⟩ else
     match fuel with
     | 0 => .error .other
-    | fuel + 1 => do
-      let body ← sliceBE data begin l r
-      let (st, sc1) := nextStatus 200 sc
-      let rq : Req := ⟨st, body, r - l⟩
-      if isOkStatus st then .ok ⟨200, false, sc1, [rq]⟩ else
-      if st = 413 then
-        if r - l = 1 then .ok ⟨st, true, sc1, [rq]⟩ else
-        let middle := (l + r) / 2
-        let lres ← sendSplitOld fuel l middle begin data sc1
-        if lres.err then .ok ⟨lres.code, true, lres.sc, rq :: lres.reqs⟩ else
-        let rres ← sendSplitOld fuel middle r begin data lres.sc
-        .ok ⟨rres.code, rres.err, rres.sc, rq :: (lres.reqs ++ rres.reqs)⟩
-      else .ok ⟨st, true, sc1, [rq]⟩
+    | fuel + 1 =>
+      match sliceBE data begin l r with
+      | .error p => .error p
+      | .ok body =>
+        let st := (nextStatus 200 sc).1
+        let sc1 := (nextStatus 200 sc).2
+        let rq : Req := ⟨st, body, r - l⟩
+        if isOkStatus st then .ok ⟨200, false, sc1, [rq]⟩ else
+        if st = 413 then
+          if r - l = 1 then .ok ⟨st, true, sc1, [rq]⟩ else
+          match sendSplitOld fuel l ((l + r) / 2) begin data sc1 with
+          | .error p => .error p
+          | .ok lres =>
+            if lres.err then .ok ⟨lres.code, true, lres.sc, rq :: lres.reqs⟩ else
+            match sendSplitOld fuel ((l + r) / 2) r begin data lres.sc with
+            | .error p => .error p
+            | .ok rres => .ok ⟨rres.code, rres.err, rres.sc, rq :: (lres.reqs ++ rres.reqs)⟩
+        else .ok ⟨st, true, sc1, [rq]⟩
 
 /-- `send(data)`: one request with the whole buffer -/
 def sendWhole (data : Bytes) (n : Nat) (sc : List Nat) : SR :=
-  let (st, sc1) := nextStatus 200 sc
-  ⟨st, !isOkStatus st, sc1, [⟨st, data, n⟩]⟩
+  let st := (nextStatus 200 sc).1
+  ⟨st, !isOkStatus st, (nextStatus 200 sc).2, [⟨st, data, n⟩]⟩
 
 /-- state of the ForEach callback of elasticsearch / http: `data.outBuf`, `data.begin`, `eventsCount` -/
 structure Acc where
@@ -188,15 +203,19 @@ deriving Repr, DecidableEq
 def outVerdict (r : SR) : Bool :=
   if r.err then (r.code = 400 || r.code = 413) else true
 
-/-- `out` of elasticsearch and http, parameterised by the bytes appended per event -/
+/-- the ForEach loop of `out` of elasticsearch and http, parameterised by the bytes appended per event -/
+def buildAcc (frame : Ev → Bytes) (lim : Nat) (wd : WD) (batch : List Ev) : Acc :=
+  forEach (accStep frame) batch ⟨resetBuf lim wd, [], 0⟩
+
+/-- `out` of elasticsearch and http -/
 def httpLikeOut (frame : Ev → Bytes) (split : Bool) (lim : Nat) (wd : WD) (batch : List Ev) (sc : List Nat) :
-    GoM (Buf × Attempt × List Nat) := do
-  let b0 := resetBuf lim wd
-  let a := forEach (accStep frame) batch ⟨b0, [], 0⟩
+    GoM (Buf × Attempt × List Nat) :=
+  let a := buildAcc frame lim wd batch
   let begin := a.begin ++ [a.buf.data.length]
-  let r ← if split then sendSplit a.count 0 a.count begin a.buf.data sc
-          else pure (sendWhole a.buf.data a.count sc)
-  pure (a.buf, ⟨outVerdict r, r.reqs⟩, r.sc)
+  match (if split then sendSplit a.count 0 a.count begin a.buf.data sc
+         else .ok (sendWhole a.buf.data a.count sc)) with
+  | .error p => .error p
+  | .ok r => .ok (a.buf, ⟨outVerdict r, r.reqs⟩, r.sc)
 
 /-- RetriableBatcher: call `out` again on the same batch while it returns an error (`n` tries) -/
 def retryLoop (out1 : WD → List Nat → GoM (Buf × Attempt × List Nat)) :
@@ -221,8 +240,11 @@ def httpLikeRun (out1 : List Ev → WD → List Nat → GoM (Buf × Attempt × L
 
 /-! ### http: json encoder (`event.Encode`) or raw encoder (`route = [encoding of the field]`, `[]` when absent) -/
 
-def httpFrame (raw : Bool) (e : Ev) : Bytes :=
-  if raw then (match e.route with | v :: _ => v | [] => []) ++ [NL] else e.enc ++ [NL]
+/-- what the encoder appends for one event -/
+def httpContent (raw : Bool) (e : Ev) : Bytes :=
+  if raw then (match e.route with | v :: _ => v | [] => []) else e.enc
+
+def httpFrame (raw : Bool) (e : Ev) : Bytes := httpContent raw e ++ [NL]
 
 def httpOut (raw split : Bool) (lim : Nat) (batch : List Ev) (wd : WD) (sc : List Nat) :=
   httpLikeOut (httpFrame raw) split lim wd batch sc
@@ -241,8 +263,8 @@ structure EsCfg where
   values : List Bytes   -- index_values
 deriving Repr
 
-def atTime : Bytes := str "@time"
-def notSet : Bytes := str "not_set"
+def atTime : Bytes := lit "@time"
+def notSet : Bytes := lit "not_set"
 
 def hexDigit (n : UInt8) : UInt8 := if n < 10 then 48 + n else 87 + n
 
@@ -276,11 +298,11 @@ def expandFormat (esc : Bool) (c : EsCfg) (e : Ev) : Bytes → Nat → Bytes →
     | none => none
     | some v => expandFormat esc c e rest (i + 1) (out ++ v)
 
-def headerPrefix (c : EsCfg) : Bytes := str "{\"" ++ c.op ++ str "\":{\"_index\":\""
+def headerPrefix (c : EsCfg) : Bytes := lit "{\"" ++ c.op ++ lit "\":{\"_index\":\""
 
 /-- `appendIndexName(nil, event)` -/
 def actionLine (esc : Bool) (c : EsCfg) (e : Ev) : Option Bytes :=
-  (expandFormat esc c e c.format 0 (headerPrefix c)).map (· ++ str "\"}}")
+  (expandFormat esc c e c.format 0 (headerPrefix c)).map (· ++ lit "\"}}")
 
 /-- `appendEvent`: action line, '\n', document, '\n'. A Fatal makes the frame `none`. -/
 def esFrame? (esc : Bool) (c : EsCfg) (e : Ev) : Option Bytes :=
@@ -306,12 +328,12 @@ deriving Repr
 
 def splunkExtras : List CopyField → List Bytes → Bytes
   | cf :: cfs, flag :: v :: rest =>
-    (if flag = [1] then str "," ++ cf.keyq ++ str ":" ++ v else []) ++ splunkExtras cfs rest
+    (if flag = [1] then lit "," ++ cf.keyq ++ lit ":" ++ v else []) ++ splunkExtras cfs rest
   | _, _ => []
 
 /-- `root.AddField("event").MutateToNode(event.Root.Node)`, copy fields, `root.Encode(outBuf)` -/
 def splunkFrame (cfs : List CopyField) (e : Ev) : Bytes :=
-  str "{\"event\":" ++ e.enc ++ splunkExtras cfs e.route ++ str "}"
+  lit "{\"event\":" ++ e.enc ++ splunkExtras cfs e.route ++ lit "}"
 
 def splunkOut (cfs : List CopyField) (lim : Nat) (batch : List Ev) (wd : WD) (sc : List Nat) :
     GoM (Buf × Attempt × List Nat) :=
@@ -336,15 +358,15 @@ def lokiEv (e : Ev) : Option LokiEv :=
   | [f, ts, msg, rest] => some ⟨f = [1], ts, msg, rest⟩
   | _ => none
 
-def lokiEntry (l : LokiEv) : Bytes := str "[" ++ l.ts ++ str "," ++ l.msg ++ str "," ++ l.rest ++ str "]"
+def lokiEntry (l : LokiEv) : Bytes := lit "[" ++ l.ts ++ lit "," ++ l.msg ++ lit "," ++ l.rest ++ lit "]"
 
 def joinComma : List Bytes → Bytes
   | [] => []
   | [x] => x
-  | x :: xs => x ++ str "," ++ joinComma xs
+  | x :: xs => x ++ lit "," ++ joinComma xs
 
 def lokiBody (labels : Bytes) (entries : List Bytes) : Bytes :=
-  str "{\"streams\":[{\"stream\":" ++ labels ++ str ",\"values\":[" ++ joinComma entries ++ str "]}]}"
+  lit "{\"streams\":[{\"stream\":" ++ labels ++ lit ",\"values\":[" ++ joinComma entries ++ lit "]}]}"
 
 /-- the loop of `send` over the messages: stops at the first bad timestamp -/
 def lokiValues : List Ev → Option (List Bytes)
